@@ -17,8 +17,9 @@ CONSTANTS MaxStack,    \* maximal height of the construction stack (prunes const
           NameSet,     \* identifiers available to PushName (soft keywords included in some configurations)
           Emit
 
-VARIABLES stack, used, done
-vars == <<stack, used, done>>
+VARIABLES stack, used, done,
+          mut          \* the rule broken by the one deliberately invalid construct of this program ("none": a valid program; C04)
+vars == <<stack, used, done, mut>>
 
 \* absent optional child: a node of kind "~"; absent optional name: the empty string
 None == [k |-> "~"]
@@ -82,6 +83,7 @@ R(n, p, need) ==
        Elts(es, f, lvl) == [j \in 1..Len(es) |-> IF es[j].k = "Starred" THEN R(es[j], p \o <<f, j>>, lvl) ELSE R(es[j], p \o <<f, j>>, lvl)]
        body ==
          CASE n.k = "Name" -> <<T(n.id)>>
+           [] n.k = "Bad" -> <<T(n.src)>>
            [] n.k = "Constant" -> <<T(n.src)>>
            [] n.k = "UnaryOp" -> <<T(UnaryText(n.op))>> \o Ch(n.operand, "operand", IF n.op = "Not" THEN NOT ELSE FACTOR)
            [] n.k = "BinOp" -> IF n.op = "Pow" THEN Ch(n.left, "left", AWAIT) \o <<T("**")>> \o Ch(n.right, "right", FACTOR)
@@ -180,7 +182,7 @@ RArgs(a, p, isDef) ==
                 \o (IF a.posonlyargs # <<>> THEN << <<T("/")>> >> ELSE <<>>)
                 \o [j \in 1..Len(a.args) |-> Param(a.args[j], "args", j)]
                 \o (IF a.vararg.k # "~" THEN << <<T("*")>> \o Plain(a.vararg, "vararg") >>
-                    ELSE IF a.kwonlyargs # <<>> THEN << <<T("*")>> >> ELSE <<>>)
+                    ELSE IF a.kwonlyargs # <<>> \/ ("barestar" \in DOMAIN a /\ a.barestar) THEN << <<T("*")>> >> ELSE <<>>)
                 \o [j \in 1..Len(a.kwonlyargs) |-> Param(a.kwonlyargs[j], "kwonlyargs", j)]
                 \o (IF a.kwarg.k # "~" THEN << <<T("**")>> \o Plain(a.kwarg, "kwarg") >> ELSE <<>>)
    IN Commas(parts)
@@ -204,15 +206,17 @@ IsSimpleTarget(n) == n.k \in {"Name", "Attribute", "Subscript"}
 \* ---------------- PyBuild: the typed stack machine ----------------
 \* a stack entry: [cat, t]   cat in  expr | star | slice | kw | dstar | pair | gen | stmt | ...
 Ent(cat, t) == [cat |-> cat, t |-> t]
-Init == stack = <<>> /\ used = 0 /\ done = FALSE
+Init == stack = <<>> /\ used = 0 /\ done = FALSE /\ mut = "none"
 On(name) == name \in Enabled
 Can(n) == ~done /\ used < Budget /\ Len(stack) >= n /\ (n = 0 => Len(stack) < MaxStack)
 Top(n) == SubSeq(stack, Len(stack) - n + 1, Len(stack))
 Below(n) == SubSeq(stack, 1, Len(stack) - n)
 CatsAre(n, cats) == \A j \in 1..n : Top(n)[j].cat \in cats
 Trees(n) == [j \in 1..n |-> Top(n)[j].t]
-Push(e) == stack' = Append(stack, e) /\ used' = used + 1 /\ UNCHANGED done
-Reduce(n, e) == stack' = Append(Below(n), e) /\ used' = used + 1 /\ UNCHANGED done
+Push(e) == stack' = Append(stack, e) /\ used' = used + 1 /\ UNCHANGED <<done, mut>>
+Reduce(n, e) == stack' = Append(Below(n), e) /\ used' = used + 1 /\ UNCHANGED <<done, mut>>
+\* the same with the construct marked as the program's one rule violation
+ReduceBad(n, e, rule) == mut = "none" /\ stack' = Append(Below(n), e) /\ used' = used + 1 /\ mut' = rule /\ UNCHANGED done
 Ex(t) == Ent("expr", t)
 
 PushName == On("Name") /\ Can(0) /\ \E id \in NameSet : Push(Ex(Name(id, "Load")))
@@ -315,12 +319,48 @@ BuildArgs(sh, ds) ==
                  [] x = "k" -> G(j + 1, di, [acc EXCEPT !.kwonlyargs = Append(@, AWD("k", None))])
                  [] x = "kd" -> G(j + 1, di + 1, [acc EXCEPT !.kwonlyargs = Append(@, AWD("z", ds[di]))])
                  [] x = "**w" -> G(j + 1, di, [acc EXCEPT !.kwarg = ArgN("w")])
+                 \* atoms of the deliberately invalid shapes (C04): a second parameter called x in every position; a bare * with nothing named after it
+                 [] x = "a2" -> G(j + 1, di, [acc EXCEPT !.args = Append(@, AWD("x", None))])
+                 [] x = "px" -> G(j + 1, di, [acc EXCEPT !.posonlyargs = Append(@, AWD("x", None))])
+                 [] x = "k2" -> G(j + 1, di, [acc EXCEPT !.kwonlyargs = Append(@, AWD("x", None))])
+                 [] x = "*x" -> G(j + 1, di, [acc EXCEPT !.vararg = ArgN("x")])
+                 [] x = "**x" -> G(j + 1, di, [acc EXCEPT !.kwarg = ArgN("x")])
+                 [] x = "*!" -> G(j + 1, di, [k |-> "arguments", posonlyargs |-> acc.posonlyargs, args |-> acc.args, vararg |-> acc.vararg,
+                                               kwonlyargs |-> acc.kwonlyargs, kwarg |-> acc.kwarg, barestar |-> TRUE])
    IN G(1, 1, NoArgs)
 MkLambda == On("Lambda") /\ \E sh \in SigShapes : LET nd == NDefaults(sh) IN
               /\ Can(1 + nd) /\ CatsAre(1 + nd, {"expr"})
               /\ Reduce(1 + nd, Ex([k |-> "Lambda", args |-> BuildArgs(sh, SubSeq(Trees(1 + nd), 1, nd)), body |-> Trees(1 + nd)[1 + nd]]))
 
-ExprActions == PushName \/ PushConst \/ MkUnary \/ MkBin \/ MkBool \/ MkCompare \/ MkIfExp \/ MkNamed \/ MkAwait \/ MkAttr \/ MkStarred
+\* ---------------- C04: one deliberately invalid construct per program ----------------
+BadLeaf(src, rule) == [src |-> src, rule |-> rule]
+BadNumbers == {BadLeaf("1__0", "num.double_underscore"), BadLeaf("1_", "num.trailing_underscore"), BadLeaf("1._5", "num.underscore_after_point"), BadLeaf("1e_5", "num.underscore_in_exponent"),
+               BadLeaf("1e+", "num.empty_exponent"), BadLeaf("012", "num.leading_zero"), BadLeaf("0_7", "num.leading_zero"), BadLeaf("0x", "num.empty_radix"), BadLeaf("0b2", "num.bad_digit"),
+               BadLeaf("0o8", "num.bad_digit"), BadLeaf("0b_", "num.empty_radix"), BadLeaf("0xg", "num.bad_digit")}
+BadStrings == {BadLeaf("'s", "str.unterminated"), BadLeaf("'''s", "str.unterminated_triple"), BadLeaf("'\\x4'", "str.bad_hex"), BadLeaf("'\\u00e'", "str.bad_hex"), BadLeaf("'\\U0011ffff'", "str.bad_hex"),
+               BadLeaf("'\\N{nope}'", "str.bad_name"), BadLeaf("b'<E9>'", "bytes.non_ascii"), BadLeaf("'a' b'b'", "bytes.mixed"), BadLeaf("b'a' 'b'", "bytes.mixed"), BadLeaf("b'a' f'{x}'", "bytes.mixed")}
+BadFStrings == {BadLeaf("f'{'", "fstr.unclosed"), BadLeaf("f'{a'", "fstr.unclosed"), BadLeaf("f'}'", "fstr.single_rbrace"), BadLeaf("f'{}'", "fstr.empty"), BadLeaf("f'{ }'", "fstr.empty"),
+                BadLeaf("f'{!r}'", "fstr.empty"), BadLeaf("f'{a!x}'", "fstr.bad_conversion"), BadLeaf("f'{a!}'", "fstr.bad_conversion"), BadLeaf("f'{a!r'", "fstr.unclosed"),
+                BadLeaf("f'{(a]}'", "fstr.mismatched"), BadLeaf("f'{a)}'", "fstr.unmatched"), BadLeaf("f'{a]}'", "fstr.unmatched"), BadLeaf("f\"{'a}\"", "fstr.unterminated_string"),
+                BadLeaf("f'{a:{b:{c}}}'", "fstr.nested_too_deeply"), BadLeaf("f'{a b}'", "fstr.invalid_expression"), BadLeaf("f'{a:{b'", "fstr.unclosed")}
+BadChars == {BadLeaf("$", "char.unstartable"), BadLeaf("?", "char.unstartable"), BadLeaf("a ! b", "char.unstartable"), BadLeaf("a \\ b", "continuation.junk")}
+BadBrackets == {BadLeaf("( a ]", "bracket.mismatched"), BadLeaf("[ a )", "bracket.mismatched"), BadLeaf("{ a ]", "bracket.mismatched"), BadLeaf("( a }", "bracket.mismatched")}
+BadStars == {BadLeaf("( * a )", "star.parenthesised"), BadLeaf("( ** a )", "dstar.parenthesised")}
+BadCalls == {BadLeaf("f ( k = a , b )", "call.positional_after_keyword"), BadLeaf("f ( ** k , b )", "call.positional_after_keyword"), BadLeaf("f ( ** k , * b )", "call.star_after_dstar"),
+             BadLeaf("f ( k = a , k = b )", "call.duplicate_keyword"), BadLeaf("f ( a , k = b , ** c , k = d )", "call.duplicate_keyword"), BadLeaf("f ( a ) ( k = a , b )", "call.positional_after_keyword")}
+BadLeaves == BadNumbers \cup BadStrings \cup BadFStrings \cup BadChars \cup BadBrackets \cup BadStars \cup BadCalls
+PushBad == On("Mut") /\ Can(0) /\ \E b \in BadLeaves : (On("MutAll") \/ b \in BadStars \cup BadCalls \cup {BadLeaf("f'{}'", "fstr.empty"), BadLeaf("1__0", "num.double_underscore"), BadLeaf("'a' b'b'", "bytes.mixed")})
+              /\ ReduceBad(0, Ex([k |-> "Bad", src |-> b.src, rule |-> b.rule]), b.rule)
+BadSig(sh, rule) == [sh |-> sh, rule |-> rule]
+BadSigs == {BadSig(<<"a", "a2">>, "param.duplicate"), BadSig(<<"a", "*", "k2">>, "param.duplicate"), BadSig(<<"a", "*x">>, "param.duplicate"), BadSig(<<"a", "**x">>, "param.duplicate"),
+            BadSig(<<"px", "/", "a">>, "param.duplicate"), BadSig(<<"a", "*v", "k2", "**w">>, "param.duplicate"),
+            BadSig(<<"d", "a">>, "param.default_order"), BadSig(<<"p", "/", "d", "a">>, "param.default_order"),
+            BadSig(<<"a", "*!">>, "param.bare_star"), BadSig(<<"*!">>, "param.bare_star"), BadSig(<<"*!", "**w">>, "param.bare_star")}
+MkLambdaBad == On("Mut") /\ On("Lambda") /\ \E b \in BadSigs : LET nd == NDefaults(b.sh) IN
+              /\ Can(1 + nd) /\ CatsAre(1 + nd, {"expr"})
+              /\ ReduceBad(1 + nd, Ex([k |-> "Lambda", args |-> BuildArgs(b.sh, SubSeq(Trees(1 + nd), 1, nd)), body |-> Trees(1 + nd)[1 + nd], bad |-> b.rule]), b.rule)
+
+ExprActions == PushBad \/ MkLambdaBad \/ PushName \/ PushConst \/ MkUnary \/ MkBin \/ MkBool \/ MkCompare \/ MkIfExp \/ MkNamed \/ MkAwait \/ MkAttr \/ MkStarred
                \/ MkKeyword \/ MkCall \/ MkSlice \/ MkSubscript \/ MkSubscriptTuple \/ MkTuple \/ MkList \/ MkSet \/ MkPair \/ MkDStar \/ MkDict
                \/ MkGen \/ MkComp \/ MkDictComp \/ MkYield \/ MkYieldFrom \/ MkLambda
 
@@ -347,6 +387,7 @@ RS(n, p) ==
        compound(items) == <<B(p)>> \o items \o <<E(p)>>
    IN
    CASE n.k = "Expr" -> simple(Ch(n.value, "value", -1))
+     [] n.k = "BadStmt" -> simple(<<T(n.src)>>)
      [] n.k = "Assign" -> simple(Cat([j \in 1..Len(n.targets) |-> R(n.targets[j], p \o <<"targets", j>>, TUPLE) \o <<T("=")>>]) \o Ch(n.value, "value", -1))
      [] n.k = "AugAssign" -> simple(Ch(n.target, "target", ATOM) \o <<T(BinText(n.op) \o "=")>> \o Ch(n.value, "value", -1))
      [] n.k = "AnnAssign" -> simple((IF n.parTarget THEN <<T("(")>> \o Ch(n.target, "target", NOPAREN) \o <<T(")")>> ELSE Ch(n.target, "target", IF n.simple = 1 THEN NOPAREN ELSE PRIMARY)) \o <<T(":")>> \o Ch(n.annotation, "annotation", TEST)
@@ -584,13 +625,22 @@ MkMatchSimple == On("PatOnly") /\ \E hg \in BOOLEAN, two \in BOOLEAN, subj \in {
                   c2 == [k |-> "match_case", pattern |-> [k |-> "MatchAs", pattern |-> None, name |-> NoStr], guard |-> None, body |-> <<[k |-> "Pass"], [k |-> "Break"]>>]
               IN (subj # "name" => ~hg /\ ~two) /\
                  Reduce(1, St([k |-> "Match", subject |-> S, cases |-> IF two THEN <<c1, c2>> ELSE <<c1>>]))
-StmtActions == MkMatchSimple \/ PushSimple \/ MkExprStmt \/ MkAssign \/ MkAugAssign \/ MkAnnAssign \/ MkReturn \/ MkDelete \/ MkRaise \/ MkAssert \/ PushGlobal \/ PushImport
+MkDefBad == On("Mut") /\ On("Def") /\ \E b \in BadSigs, asy \in BOOLEAN : LET nd == NDefaults(b.sh) IN
+              /\ Can(1 + nd) /\ (\A j \in 1..nd : Top(1 + nd)[j].cat = "expr") /\ Top(1 + nd)[1 + nd].cat = "stmt"
+              /\ ReduceBad(1 + nd, St([k |-> IF asy THEN "AsyncFunctionDef" ELSE "FunctionDef", name |-> "f", args |-> BuildArgs(b.sh, SubSeq(Trees(1 + nd), 1, nd)),
+                                        body |-> <<Trees(1 + nd)[1 + nd]>>, decorator_list |-> <<>>, returns |-> None, type_params |-> <<>>, bad |-> b.rule]), b.rule)
+BadStmts == {BadLeaf("class C ( k = a , b ) : pass", "call.positional_after_keyword"), BadLeaf("class C ( k = a , k = b ) : pass", "call.duplicate_keyword"),
+             BadLeaf("class C ( ** k , * b ) : pass", "call.star_after_dstar")}
+PushBadStmt == On("Mut") /\ Can(0) /\ \E b \in BadStmts : ReduceBad(0, St([k |-> "BadStmt", src |-> b.src, rule |-> b.rule]), b.rule)
+MkPatAsBad == On("Mut") /\ On("Match") /\ Can(1) /\ CatsAre(1, {"pat"}) /\ Trees(1)[1].k # "MatchAs" /\
+              ReduceBad(1, Pat([k |-> "MatchAs", pattern |-> Trees(1)[1], name |-> "_", bad |-> "pattern.as_underscore"]), "pattern.as_underscore")
+StmtActions == MkDefBad \/ PushBadStmt \/ MkPatAsBad \/ MkMatchSimple \/ PushSimple \/ MkExprStmt \/ MkAssign \/ MkAugAssign \/ MkAnnAssign \/ MkReturn \/ MkDelete \/ MkRaise \/ MkAssert \/ PushGlobal \/ PushImport
                \/ MkTypeAlias \/ MkIf \/ MkWhile \/ MkFor \/ MkWithItem \/ MkWith \/ MkHandler \/ MkTry \/ MkDef \/ MkClass
                \/ PushPattern \/ MkPatSeq \/ MkPatOr \/ MkPatAs \/ MkPatMapping \/ MkPatClass \/ MkCase \/ MkMatch
 
 \* ---------------- finishing: a module (1..2 statements) or a single expression ----------------
-FinishModule == ~done /\ On("Module") /\ Len(stack) \in 1..2 /\ (\A j \in 1..Len(stack) : stack[j].cat = "stmt") /\ done' = TRUE /\ UNCHANGED <<stack, used>>
-FinishExpr == ~done /\ On("Expression") /\ Len(stack) = 1 /\ stack[1].cat = "expr" /\ done' = TRUE /\ UNCHANGED <<stack, used>>
+FinishModule == ~done /\ On("Module") /\ Len(stack) \in 1..2 /\ (\A j \in 1..Len(stack) : stack[j].cat = "stmt") /\ done' = TRUE /\ UNCHANGED <<stack, used, mut>>
+FinishExpr == ~done /\ On("Expression") /\ Len(stack) = 1 /\ stack[1].cat = "expr" /\ done' = TRUE /\ UNCHANGED <<stack, used, mut>>
 Next == ExprActions \/ StmtActions \/ FinishModule \/ FinishExpr
 Spec == Init /\ [][Next]_vars
 
@@ -598,6 +648,40 @@ IsModule == \A j \in 1..Len(stack) : stack[j].cat = "stmt"
 Tree == IF IsModule THEN [k |-> "Module", body |-> [j \in 1..Len(stack) |-> stack[j].t]] ELSE [k |-> "Expression", body |-> stack[1].t]
 \* eval mode takes `expressions`: no bare yield, no walrus, no starred tuple element: rendered at TEST level
 Items == IF IsModule THEN Cat([j \in 1..Len(stack) |-> RS(stack[j].t, <<"body", j>>)]) ELSE R(stack[1].t, <<"body">>, TEST)
-EmitOK == (Emit /\ done) => PrintT("REPLAY" \o ToJson([fam |-> "py", mode |-> IF IsModule THEN "Module" ELSE "Expression", tree |-> Tree, items |-> Items]))
+EmitOK == (Emit /\ done /\ mut = "none") => PrintT("REPLAY" \o ToJson([fam |-> "py", mode |-> IF IsModule THEN "Module" ELSE "Expression", tree |-> Tree, items |-> Items]))
 \* M: rendering is injective on finished programs is checked by the runner (distinct trees -> distinct token sequences)
+\* C04: the error each rule must be reported as (kind paths as the replay normalises them; a trailing * is a prefix match)
+RuleKinds(rule) ==
+  CASE rule = "bracket.mismatched" -> {"UnrecognizedToken"}
+    [] rule = "bytes.mixed" -> {"Lexical.OtherError:cannot mix bytes*"}
+    [] rule = "bytes.non_ascii" -> {"Lexical.OtherError:bytes can only contain ASCII*"}
+    [] rule = "call.duplicate_keyword" -> {"Lexical.DuplicateKeywordArgumentError"}
+    [] rule = "call.positional_after_keyword" -> {"Lexical.PositionalArgumentError"}
+    [] rule = "call.star_after_dstar" -> {"Lexical.UnpackedArgumentError"}
+    [] rule = "char.unstartable" -> {"Lexical.UnrecognizedToken"}
+    [] rule = "continuation.junk" -> {"Lexical.LineContinuationError"}
+    [] rule = "dstar.parenthesised" -> {"Lexical.OtherError:cannot use double starred*"}
+    [] rule = "star.parenthesised" -> {"Lexical.OtherError:cannot use starred*"}
+    [] rule = "fstr.bad_conversion" -> {"Lexical.FStringError.InvalidConversionFlag", "Lexical.FStringError.UnclosedLbrace"}
+    [] rule = "fstr.empty" -> {"Lexical.FStringError.EmptyExpression"}
+    [] rule = "fstr.invalid_expression" -> {"Lexical.FStringError.InvalidExpression*"}
+    [] rule = "fstr.mismatched" -> {"Lexical.FStringError.MismatchedDelimiter"}
+    [] rule = "fstr.nested_too_deeply" -> {"Lexical.FStringError.ExpressionNestedTooDeeply"}
+    [] rule = "fstr.single_rbrace" -> {"Lexical.FStringError.SingleRbrace"}
+    [] rule = "fstr.unclosed" -> {"Lexical.FStringError.UnclosedLbrace"}
+    [] rule = "fstr.unmatched" -> {"Lexical.FStringError.Unmatched"}
+    [] rule = "fstr.unterminated_string" -> {"Lexical.FStringError.UnterminatedString"}
+    [] rule \in {"num.bad_digit", "num.empty_radix"} -> {"Lexical.OtherError*", "UnrecognizedToken"}
+    [] rule \in {"num.double_underscore", "num.trailing_underscore", "num.empty_exponent", "num.underscore_in_exponent"} -> {"UnrecognizedToken", "Lexical.OtherError*"}
+    [] rule = "num.leading_zero" -> {"Lexical.OtherError:Invalid Token*"}
+    [] rule = "num.underscore_after_point" -> {"Lexical.OtherError:Invalid Syntax*", "UnrecognizedToken"}
+    [] rule = "param.bare_star" -> {"Lexical.OtherError:named arguments must follow bare*"}
+    [] rule = "param.default_order" -> {"Lexical.DefaultArgumentError"}
+    [] rule = "param.duplicate" -> {"Lexical.DuplicateArgumentError"}
+    [] rule = "pattern.as_underscore" -> {"Lexical.OtherError:cannot use '_' as a target*"}
+    [] rule \in {"str.bad_hex", "str.bad_name"} -> {"Lexical.UnicodeError"}
+    [] rule = "str.unterminated" -> {"Lexical.StringError", "Lexical.OtherError:EOL*"}
+    [] rule = "str.unterminated_triple" -> {"Lexical.Eof"}
+\* C04: the programs with exactly one rule violation
+EmitMutOK == (Emit /\ done /\ mut # "none") => PrintT("REPLAY" \o ToJson([fam |-> "mut", mode |-> IF IsModule THEN "Module" ELSE "Expression", rule |-> mut, expect |-> RuleKinds(mut), tree |-> Tree, items |-> Items]))
 =======================================================================
